@@ -177,3 +177,26 @@ def canon(obs, t):
                 tk = head + "=" + ",".join(sorted("%02x:%s" % (f, d.hex()) for f, d in fr))
         toks.append(tk)
     return " ".join(toks)
+
+
+def parse_frames_prefix(b):
+    """like parse_frames but returns the complete frames of a possibly truncated stream"""
+    out = []
+    i = 0
+    while i < len(b):
+        fl = b[i]
+        if fl & 2:
+            if i + 9 > len(b):
+                break
+            n = int.from_bytes(b[i + 1:i + 9], "big")
+            h = 9
+        else:
+            if i + 2 > len(b):
+                break
+            n = b[i + 1]
+            h = 2
+        if i + h + n > len(b):
+            break
+        out.append((fl, b[i + h:i + h + n]))
+        i += h + n
+    return out
